@@ -37,6 +37,8 @@ class LoopSpec:
     invariants: list                         # [(label, lambda L: z3 formula)]
     ghost_step: object = None                # optional lambda(L, st) run at the end of each iteration
     modifies: tuple = ()                     # extra havocked names (ghosts)
+    setup: object = None                     # lambda(L, st) -> dict: spec functions for this loop (axioms -> st.hyps)
+    after: object = None                     # lambda(L) -> [(lemma name, formula)] assumed at loop exit (trusted lemmas)
 
 
 @dataclass
@@ -82,10 +84,16 @@ class NS:
 
 
 class LoopView:
-    def __init__(self, k, enum, cur, pre, old, extra=None):
+    def __init__(self, k, enum, cur, pre, old, extra=None, eng=None, ordn=None):
         self.k, self.enum, self.cur, self.pre, self.old = k, enum, NS(cur), NS(pre), NS(old)
         self.n = enum.n if enum is not None else None
-        self.x = extra or {}
+        self.eng, self.ordn = eng, ordn
+        if eng is not None:
+            self.X = eng.loop_x            # ordinal -> dict of spec functions (this loop and enclosing ones)
+            self.K = eng.loop_k            # ordinal -> index term of enclosing loops' current iteration
+            self.IT = eng.loop_it          # ordinal -> PyEnum of enclosing loops
+            self.PRE = {o: NS(e) for o, e in eng.loop_pre.items()}   # ordinal -> env at that loop's entry
+            self.x = eng.loop_x.get(ordn, {})
 
     def at(self, i):
         return self.enum.at(i)
@@ -132,6 +140,9 @@ class Engine:
         self.classctx = classctx
         self.loop_ordinal = 0
         self.call_ordinals = {}
+        self.loop_x, self.loop_k, self.loop_it, self.loop_pre = {}, {}, {}, {}
+        self.lemma_uses = []
+        self._comp_ord = 0
         self.obls = []
         st = State()
         # parameters
@@ -363,17 +374,24 @@ class Engine:
         it = self.iterate(self.eval(s.iter, cx), cx)
         st.hyps += it.axioms
         pre_env = dict(st.env)
+        self.loop_it[ordn], self.loop_pre[ordn] = it, pre_env
         mods = sorted(_assigned_names(s.body, self) | set(spec.modifies))
+
+        def LV(k, env):
+            return LoopView(k, it, env, pre_env, self.pre_env, eng=self, ordn=ordn)
+        if spec.setup:
+            self.loop_x[ordn] = spec.setup(LV(z3.IntVal(0), st.env), st) or {}
         # --- init
-        L0 = LoopView(z3.IntVal(0), it, st.env, pre_env, self.pre_env)
+        L0 = LV(z3.IntVal(0), st.env)
         for label, inv in spec.invariants:
             self.emit(f"inv-init:L{ordn}:{label}", "inv-init", st, inv(L0), s.lineno)
         # --- arbitrary iteration
         body_st = st.fork()
         self.havoc(body_st, mods, pre_env)
         k = FreshConst(IntS, f"k{ordn}")
+        self.loop_k[ordn] = k
         body_st.hyps += [0 <= k, k < it.n]
-        Lk = LoopView(k, it, body_st.env, pre_env, self.pre_env)
+        Lk = LV(k, body_st.env)
         for label, inv in spec.invariants:
             body_st.hyps.append(inv(Lk))
         self.emit(f"probe:L{ordn}:body-reachable", "probe", body_st, z3.BoolVal(False), s.lineno, expect_fail=True)
@@ -384,22 +402,24 @@ class Engine:
         for st2, out in outs:
             if out.kind in ("normal", "continue"):
                 if spec.ghost_step:
-                    spec.ghost_step(LoopView(k, it, st2.env, pre_env, self.pre_env), st2)
-                Ln = LoopView(k + 1, it, st2.env, pre_env, self.pre_env)
+                    spec.ghost_step(LV(k, st2.env), st2)
+                Ln = LV(k + 1, st2.env)
                 for label, inv in spec.invariants:
                     self.emit(f"inv-pres:L{ordn}:{label}", "inv-pres", st2, inv(Ln), s.lineno)
             elif out.kind == "break":
-                st2.env["__broke%d" % ordn] = PyBool(True)
-                st2.env["__k%d" % ordn] = PyInt(k)
                 exits.append((st2, Outcome("normal")))
             else:
                 exits.append((st2, out))
         # --- after the loop (exhausted)
         end_st = st.fork()
         self.havoc(end_st, mods, pre_env)
-        Le = LoopView(it.n, it, end_st.env, pre_env, self.pre_env)
+        Le = LV(it.n, end_st.env)
         for label, inv in spec.invariants:
             end_st.hyps.append(inv(Le))
+        if spec.after:
+            for lname, f in spec.after(Le):
+                end_st.hyps.append(f)
+                self.lemma_uses.append(lname)
         if s.orelse:
             exits += self.exec_block(s.orelse, end_st)
         else:
@@ -449,6 +469,13 @@ class Engine:
 
     def havoc(self, st, names, pre_env):
         for n in names:
+            if n.startswith("self.") and isinstance(st.env.get("self"), PyRec):
+                rec, f = st.env["self"], n[5:]
+                if f in rec.fields:
+                    new = self.fresh_like(rec.fields[f], n)
+                    st.env["self"] = rec.with_field(f, new)
+                    st.hyps += getattr(new, "axioms", [])
+                continue
             if n in st.env:
                 old = st.env[n]
                 if isinstance(old, (PyNone, PyStr)):
@@ -1161,9 +1188,17 @@ def _handler_names(h):
 
 
 def _root_name(node):
+    """root variable of an access path; for paths through `self` the first field is kept
+    ("self.rdeps") so that loops havoc only the fields they can change"""
+    chain = []
     while isinstance(node, (ast.Attribute, ast.Subscript)):
+        chain.append(node)
         node = node.value
-    return node.id if isinstance(node, ast.Name) else None
+    if not isinstance(node, ast.Name):
+        return None
+    if node.id == "self" and chain and isinstance(chain[-1], ast.Attribute):
+        return "self." + chain[-1].attr
+    return node.id
 
 
 MUTATING_METHODS = {"add", "update", "append", "appendleft", "extend", "remove", "pop", "clear", "insert",
